@@ -183,7 +183,8 @@ def run(planf, wid, nw, outdir):
         checks = []
         if tests == 'pass':
             for pid in FILES[m['file']]:
-                rc, o = sh(f'./check {pid} 2>&1 | grep -E "^(VIOLATION|OK)" | head -1', cwd=v, timeout=1500, env=env)
+                cenv = {k: x for k, x in env.items() if k != 'CARGO_TARGET_DIR'}
+                rc, o = sh(f'./check {pid} 2>&1 | grep -E "^(VIOLATION|OK)" | head -1', cwd=v, timeout=1500, env=cenv)
                 r = 'V' if 'VIOLATION' in o else ('ok' if o.startswith('OK') else '?')
                 if 'no-failing-input-found' in o:
                     r = 'Vn'
